@@ -1,11 +1,23 @@
 import NLE.Driver.Pure
+import NLE.Driver.TraceOps
 open NLE.Driver
+
+partial def readTrace (hin : IO.FS.Stream) (acc : TraceAcc) : IO TraceAcc := do
+  let line ← hin.getLine
+  if line.isEmpty then return acc
+  let l := line.trimAscii.toString
+  if l == "trace-end" then return acc
+  readTrace hin (acc.add l)
 
 partial def loop (hin : IO.FS.Stream) (hout : IO.FS.Stream) : IO Unit := do
   let line ← hin.getLine
   if line.isEmpty then return ()
   let ws := words (line.trimAscii.toString)
   if ws.isEmpty then
+    loop hin hout
+  else if ws == ["trace-begin"] then
+    let acc ← readTrace hin {}
+    hout.putStrLn acc.finish
     loop hin hout
   else
     match handlePure ws with
